@@ -332,6 +332,19 @@ func (w *World) Step(no int, st Step, b *Behaviour) error {
 		return cond
 	}
 	switch st.A {
+	case "setupsync":
+		// the first client builds the initial document (containers + initial
+		// content, one change each) and pushes it
+		if err := w.Step(no, Step{A: "setup", C: st.C, D: st.D}, b); err != nil {
+			return err
+		}
+		for _, op := range b.Init {
+			op := op
+			if err := w.Step(no, Step{A: "edit", C: st.C, D: st.D, Op: &op}, b); err != nil {
+				return err
+			}
+		}
+		return w.Step(no, Step{A: "sync", C: st.C, D: st.D}, b)
 	case "attach":
 		if !precond(c != nil && c.Active, "client not active") {
 			return nil
